@@ -182,12 +182,14 @@ theorem collectN_anc (hist : Nat → Hist) : ∀ (ws : List α) (ks : List (V α
     intro h hh e he
     simp only [collectN, List.mem_append] at hh ⊢
     rcases hh with hh | hh
-    · by_cases hw : 0 < w
-      · simp only [hw, if_true] at hh ⊢
+    · by_cases hw : 0 < w ∧ 0 < w * c
+      · simp only [hw.1, hw.2, decide_true, Bool.and_self, if_true] at hh ⊢
         rcases collect_anc hist k H (w * c) p1 h hh e he with h1 | ⟨h', h1, h2⟩
         · exact Or.inl h1
         · exact Or.inr ⟨h', Or.inl h1, h2⟩
-      · simp [hw] at hh
+      · have : (decide (0 < w) && decide (0 < w * c)) = false := by
+          simpa [Bool.and_eq_false_iff, not_and_or] using hw
+        simp [this] at hh
     · rcases collectN_anc hist ws ks H c p2 h hh e he with h1 | ⟨h', h1, h2⟩
       · exact Or.inl h1
       · exact Or.inr ⟨h', Or.inr h1, h2⟩
